@@ -40,6 +40,22 @@ claim('C20', 'exploration', 'runtime monitor: metamorphic equivalence of pattern
       'invalid objects must raise TypeError before consuming output.',
       'Grammar avoids constructs whose meaning legitimately differs between str and bytes patterns.', '5/C20')
 
+claim('C13', 'exploration', 'runtime monitor: round-trip law + first-match model + probe child report',
+      'split_command_line round trip over generated and enumerated argument lists in three quoting styles; which() '
+      'against the first-match rule on generated PATH layouts, cross-checked by running the program; a probe child '
+      'reports argv/cwd/environ/winsize/echo/SIGHUP and must equal the request (spawn and PopenSpawn).',
+      'Quoting functions encode only the documented rules; probe reads /proc/self/environ and termios.', '5/C13')
+claim('C18', 'exploration', 'runtime monitor: invariants after every write + metamorphic chunking equivalence',
+      'Totality, grid shape, cursor bounds and parser-residue invariants evaluated after every write of enumerated '
+      '(all token sequences up to a bound on tiny screens) and random inputs; every input is re-fed in pieces (all cut '
+      'points for short inputs) and through process() and must reach the same state.',
+      'Runs in a scratch cwd (the emulator appends to ./log); partial multi-byte input to process() not fed.', '5/C18')
+claim('C19', 'exploration', 'runtime monitor: reference grid with ambiguity mask + accessor self-consistency',
+      'Every operation sequence up to a bound on tiny screens (enumerated) and random long sequences are executed on '
+      'the real screen and on a docstring-derived reference grid; grid, cursor, saved cursor and all read accessors '
+      'compared after operations.',
+      'models/screen_ref.py is trusted as the reading of the docstrings; undocumented cells are masked.', '5/C19')
+
 PENDING = {
 }
 
